@@ -610,6 +610,7 @@ func famC20(rn *Runner) {
 		}
 		var mNodes []expNode // nodes whose -m records are expected, in output order
 		wantDiag := 0
+		var diagPaths []string // every failing input is named by its own diagnostic
 		knownNewline := false
 		var docIDs []int
 		for _, p := range processed {
@@ -627,6 +628,7 @@ func famC20(rn *Runner) {
 			if rerr != nil {
 				fileSx = append(fileSx, fmt.Sprintf("(%s %s none none)", sxStr(p), isStdin))
 				wantDiag++
+				diagPaths = append(diagPaths, p)
 				continue
 			}
 			c, ok := parseLikeCli(p, data, run)
@@ -637,6 +639,7 @@ func famC20(rn *Runner) {
 			if !ok {
 				fileSx = append(fileSx, fmt.Sprintf("(%s %s none none)", sxStr(p), isStdin))
 				wantDiag++
+				diagPaths = append(diagPaths, p)
 				continue
 			}
 			rn.nextDoc++
@@ -649,6 +652,7 @@ func famC20(rn *Runner) {
 			if xerr != nil {
 				fileSx = append(fileSx, fmt.Sprintf("(%s %s %d none)", sxStr(p), isStdin, id))
 				wantDiag++
+				diagPaths = append(diagPaths, p)
 				continue
 			}
 			var val string
@@ -664,6 +668,7 @@ func famC20(rn *Runner) {
 						}
 						rn.St.Known["C20-m-empty-name"]++
 						wantDiag++
+						diagPaths = append(diagPaths, p)
 						break
 					}
 					if run.m && !piFormEncodable(x) {
@@ -674,6 +679,7 @@ func famC20(rn *Runner) {
 						}
 						rn.St.Known["C20-m-pi-form-not-encodable"]++
 						wantDiag++
+						diagPaths = append(diagPaths, p)
 						break
 					}
 					pp, _ := pathOf(x)
@@ -802,6 +808,20 @@ func famC20(rn *Runner) {
 		}
 		if wantDiag > 0 && strings.TrimSpace(stderr) == "" {
 			report("failing inputs produce a diagnostic on stderr", fmt.Sprintf("%d inputs fail but stderr is empty", wantDiag))
+		} else {
+			// ... one per failing input: each diagnostic names its file
+			need := map[string]int{}
+			for _, dp := range diagPaths {
+				if dp != "-" {
+					need[dp]++
+				}
+			}
+			for dp, k := range need {
+				if got := strings.Count(stderr, "file "+dp+":") + strings.Count(stderr, "file "+dp+"\n"); got < k {
+					report("every failing input produces its own diagnostic on stderr", fmt.Sprintf("%s fails %d time(s) but stderr names it %d time(s): %q", dp, k, got, stderr))
+					break
+				}
+			}
 		}
 		_ = knownNewline
 		os.RemoveAll(dir)
